@@ -716,7 +716,7 @@ pub open spec fn var_consumed(c8: u8, u: Seq<u8>) -> int { if u[0] == c8 { 2 + u
 
 impl<R: Read> Deserializer<R> {
 //@@ fn file=serde_amqp/src/de.rs impl=`impl<'de, R: Read<'de>> Deserializer<R>` name=read_format_code
-//@@ subst `self.reader .next() .map_err(Into::into) .transpose() .map(|code| code.and_then(|code| code.try_into()))` => `res_transpose(self.reader.next().map_err(|e: IoError| -> (o: Error) ensures o == Error::Io(e) { Error::Io(e) })).map(|code: Result<u8, Error>| -> (o: Result<EncodingCodes, Error>) ensures (match code { Ok(c) => (o is Ok ==> o->Ok_0 as u8 == c) && (amqp_ctor(c) ==> o is Ok), Err(e) => o == Err::<EncodingCodes, Error>(e) }) { match code { Ok(c) => EncodingCodes::try_from_u8(c), Err(e) => Err(e) } })` rule=R19
+//@@ subst `self.reader .next() .map_err(Into::into) .transpose() .map(|code| code.and_then(|code| code.try_into()))` => `res_transpose(self.reader.next().map_err(|e: IoError| -> (o: Error) ensures o == Error::Io(e) { Error::Io(e) })).map(|code: Result<u8, Error>| -> (o: Result<EncodingCodes, Error>) ensures (match code { Ok(c) => (o is Ok ==> o->Ok_0 as u8 == c) && (amqp_ctor(c) ==> o is Ok), Err(e) => o == Err::<EncodingCodes, Error>(e) }) { match code { Ok(c) => EncodingCodes::try_from_u8(c), Err(e) => Err(e) } })` rule=R19 unless `\.map_err\(`
 //@@ spec
     requires bounded(old(self).reader),
     ensures
@@ -758,7 +758,7 @@ impl<R: Read> Deserializer<R> {
 //@@ subst `e.into()` => `e.err_into()` rule=R16
 //@@ at `Some(string_from_utf8(buf)` before
             proof { assert(buf@ =~= old(self).reader.unread().subrange(1, 1 + len as int)); }
-//@@ subst `String::from_utf8(buf).map_err(Into::into)` => `string_from_utf8(buf).map_err(|e: FromUtf8Error| -> (o: Error) { Error::Other })` rule=R17
+//@@ subst `String::from_utf8(buf).map_err(Into::into)` => `string_from_utf8(buf).map_err(|e: FromUtf8Error| -> (o: Error) { Error::Other })` rule=R17 unless `\.map_err\(`
 //@@ spec
     requires bounded(old(self).reader),
     ensures
@@ -782,7 +782,7 @@ impl<R: Read> Deserializer<R> {
 //@@ subst `e.into()` => `e.err_into()` rule=R16
 //@@ at `Some(string_from_utf8(buf)` before
             proof { assert(buf@ =~= old(self).reader.unread().subrange(4, 4 + len as int)); assert(len_bytes@ =~= old(self).reader.unread().subrange(0, 4)); }
-//@@ subst `String::from_utf8(buf).map_err(Into::into)` => `string_from_utf8(buf).map_err(|e: FromUtf8Error| -> (o: Error) { Error::Other })` rule=R17
+//@@ subst `String::from_utf8(buf).map_err(Into::into)` => `string_from_utf8(buf).map_err(|e: FromUtf8Error| -> (o: Error) { Error::Other })` rule=R17 unless `\.map_err\(`
 //@@ spec
     requires bounded(old(self).reader),
     ensures
@@ -860,7 +860,7 @@ impl<R: Read> Deserializer<R> {
 //@@ subst `|| Error::unexpected_eof("parse_byte_buf")` => `|| -> (o: Error) { Error::unexpected_eof("parse_byte_buf") }` rule=R18
 //@@ subst `|| Error::unexpected_eof("Expecting len")` => `|| -> (o: Error) { Error::unexpected_eof("Expecting len") }` rule=R18
 //@@ subst `u32::from_be_bytes(` => `from_be32(` rule=R9
-//@@ subst `.map_err(Into::into)` => `.map_err(|e: IoError| -> (o: Error) { Error::Io(e) })` rule=R17
+//@@ subst `.map_err(Into::into)` => `.map_err(|e: IoError| -> (o: Error) { Error::Io(e) })` rule=R17 unless `\.map_err\(`
 //@@ spec
     requires bounded(old(self).reader), old(self).elem_format_code is None,
     ensures
@@ -929,7 +929,7 @@ impl<R: Read> Deserializer<R> {
 //@@ ret Result<VisValue, Error>
 //@@ subst `|| Error::unexpected_eof("Expecting format code")` => `|| -> (o: Error) { Error::unexpected_eof("Expecting format code") }` rule=R18
 //@@ subst `|| Error::unexpected_eof("Expecting len")` => `|| -> (o: Error) { Error::unexpected_eof("Expecting len") }` rule=R18
-//@@ subst `self.reader.read_const_bytes().map(u32::from_be_bytes)?` => `(match self.reader.read_const_bytes() { Ok(b) => from_be32(b), Err(e) => return Err(e.err_into()) })` rule=R19
+//@@ subst `self.reader.read_const_bytes().map(u32::from_be_bytes)?` => `(match self.reader.read_const_bytes() { Ok(b) => from_be32(b), Err(e) => return Err(e.err_into()) })` rule=R19 unless `\.map\(`
 //@@ subst `self.reader.forward_read_str(len, visitor)` => `reader_forward_str(&mut self.reader, len, visitor)` rule=R9
 //@@ spec
     requires bounded(old(self).reader),
@@ -954,7 +954,7 @@ impl<R: Read> Deserializer<R> {
 //@@ ret Result<VisValue, Error>
 //@@ subst `|| Error::unexpected_eof("Expecting format code")` => `|| -> (o: Error) { Error::unexpected_eof("Expecting format code") }` rule=R18
 //@@ subst `|| Error::unexpected_eof("Expecting len")` => `|| -> (o: Error) { Error::unexpected_eof("Expecting len") }` rule=R18
-//@@ subst `self.reader.read_const_bytes().map(u32::from_be_bytes)?` => `(match self.reader.read_const_bytes() { Ok(b) => from_be32(b), Err(e) => return Err(e.err_into()) })` rule=R19
+//@@ subst `self.reader.read_const_bytes().map(u32::from_be_bytes)?` => `(match self.reader.read_const_bytes() { Ok(b) => from_be32(b), Err(e) => return Err(e.err_into()) })` rule=R19 unless `\.map\(`
 //@@ subst `self.reader.forward_read_bytes_with_hint(len, visitor)` => `reader_forward_bytes(&mut self.reader, len, visitor)` rule=R9
 //@@ subst `unreachable!()` => `{ marker_cannot_be(); Err(Error::InvalidFormatCode) }` rule=R12
 //@@ spec
@@ -1150,8 +1150,8 @@ impl<R: Read> Deserializer<R> {
 //@@ qmark
 //@@ blockarms
 //@@ subst `|| Error::unexpected_eof("parse_u32")` => `|| -> (o: Error) { Error::unexpected_eof("parse_u32") }` rule=R18
-//@@ subst `self .reader .read_const_bytes() .map(u32::from_be_bytes) .map_err(Into::into)` => `(match self.reader.read_const_bytes() { Ok(b) => Ok(from_be32(b)), Err(e) => Err(e.err_into()) })` rule=R19
-//@@ subst `self.reader.next().map_err(Into::into).and_then(|b| { b.ok_or_else(|| Error::unexpected_eof("Expecting small u32")) .map(|byte| byte as u32) })` => `(match self.reader.next() { Ok(Some(byte)) => Ok(byte as u32), Ok(None) => Err(Error::unexpected_eof("Expecting small u32")), Err(e) => Err(e.err_into()) })` rule=R19
+//@@ subst `self .reader .read_const_bytes() .map(u32::from_be_bytes) .map_err(Into::into)` => `(match self.reader.read_const_bytes() { Ok(b) => Ok(from_be32(b)), Err(e) => Err(e.err_into()) })` rule=R19 unless `\.map_err\(`
+//@@ subst `self.reader.next().map_err(Into::into).and_then(|b| { b.ok_or_else(|| Error::unexpected_eof("Expecting small u32")) .map(|byte| byte as u32) })` => `(match self.reader.next() { Ok(Some(byte)) => Ok(byte as u32), Ok(None) => Err(Error::unexpected_eof("Expecting small u32")), Err(e) => Err(e.err_into()) })` rule=R19 unless `\.map_err\(`
 //@@ spec
     requires bounded(old(self).reader),
     ensures
@@ -1165,7 +1165,7 @@ impl<R: Read> Deserializer<R> {
 //@@ qmark
 //@@ blockarms
 //@@ subst `|| Error::unexpected_eof("parse_u8")` => `|| -> (o: Error) { Error::unexpected_eof("parse_u8") }` rule=R18
-//@@ subst `self .reader .next() .map_err(Into::into) .and_then(|b| b.ok_or_else(|| Error::unexpected_eof("Expecting u8")))` => `(match self.reader.next() { Ok(Some(byte)) => Ok(byte), Ok(None) => Err(Error::unexpected_eof("Expecting u8")), Err(e) => Err(e.err_into()) })` rule=R19
+//@@ subst `self .reader .next() .map_err(Into::into) .and_then(|b| b.ok_or_else(|| Error::unexpected_eof("Expecting u8")))` => `(match self.reader.next() { Ok(Some(byte)) => Ok(byte), Ok(None) => Err(Error::unexpected_eof("Expecting u8")), Err(e) => Err(e.err_into()) })` rule=R19 unless `\.map_err\(`
 //@@ spec
     requires bounded(old(self).reader),
     ensures
@@ -1179,7 +1179,7 @@ impl<R: Read> Deserializer<R> {
 //@@ qmark
 //@@ blockarms
 //@@ subst `|| Error::unexpected_eof("parse_bool")` => `|| -> (o: Error) { Error::unexpected_eof("parse_bool") }` rule=R18
-//@@ subst `self.reader.next().map_err(Into::into).and_then(|b| { b.ok_or_else(|| Error::unexpected_eof("Expecting bool byte")) })?` => `(match self.reader.next() { Ok(Some(byte)) => byte, Ok(None) => return Err(Error::unexpected_eof("Expecting bool byte")), Err(e) => return Err(e.err_into()) })` rule=R19
+//@@ subst `self.reader.next().map_err(Into::into).and_then(|b| { b.ok_or_else(|| Error::unexpected_eof("Expecting bool byte")) })?` => `(match self.reader.next() { Ok(Some(byte)) => byte, Ok(None) => return Err(Error::unexpected_eof("Expecting bool byte")), Err(e) => return Err(e.err_into()) })` rule=R19 unless `\.map_err\(`
 //@@ spec
     requires bounded(old(self).reader),
     ensures
@@ -1215,8 +1215,8 @@ impl<R: Read> Deserializer<R> {
 //@@ qmark
 //@@ blockarms
 //@@ subst `|| Error::unexpected_eof("parse_i64")` => `|| -> (o: Error) { Error::unexpected_eof("parse_i64") }` rule=R18
-//@@ subst `self .reader .read_const_bytes() .map(i64::from_be_bytes) .map_err(Into::into)` => `(match self.reader.read_const_bytes() { Ok(b) => Ok(i64_from_be(b)), Err(e) => Err(e.err_into()) })` rule=R19
-//@@ subst `self.reader.next().map_err(Into::into).and_then(|b| { b.map(|signed| signed as i8 as i64) .ok_or_else(|| Error::unexpected_eof("Expecting i64")) })` => `(match self.reader.next() { Ok(Some(signed)) => Ok(signed as i8 as i64), Ok(None) => Err(Error::unexpected_eof("Expecting i64")), Err(e) => Err(e.err_into()) })` rule=R19
+//@@ subst `self .reader .read_const_bytes() .map(i64::from_be_bytes) .map_err(Into::into)` => `(match self.reader.read_const_bytes() { Ok(b) => Ok(i64_from_be(b)), Err(e) => Err(e.err_into()) })` rule=R19 unless `\.map_err\(`
+//@@ subst `self.reader.next().map_err(Into::into).and_then(|b| { b.map(|signed| signed as i8 as i64) .ok_or_else(|| Error::unexpected_eof("Expecting i64")) })` => `(match self.reader.next() { Ok(Some(signed)) => Ok(signed as i8 as i64), Ok(None) => Err(Error::unexpected_eof("Expecting i64")), Err(e) => Err(e.err_into()) })` rule=R19 unless `\.map_err\(`
 //@@ spec
     requires bounded(old(self).reader),
     ensures
@@ -1230,8 +1230,8 @@ impl<R: Read> Deserializer<R> {
 //@@ qmark
 //@@ blockarms
 //@@ subst `|| Error::unexpected_eof("parse_i32")` => `|| -> (o: Error) { Error::unexpected_eof("parse_i32") }` rule=R18
-//@@ subst `self .reader .read_const_bytes() .map(i32::from_be_bytes) .map_err(Into::into)` => `(match self.reader.read_const_bytes() { Ok(b) => Ok(i32_from_be(b)), Err(e) => Err(e.err_into()) })` rule=R19
-//@@ subst `self.reader.next().map_err(Into::into).and_then(|b| { b.map(|signed| signed as i8 as i32) .ok_or_else(|| Error::unexpected_eof("Expecting i32")) })` => `(match self.reader.next() { Ok(Some(signed)) => Ok(signed as i8 as i32), Ok(None) => Err(Error::unexpected_eof("Expecting i32")), Err(e) => Err(e.err_into()) })` rule=R19
+//@@ subst `self .reader .read_const_bytes() .map(i32::from_be_bytes) .map_err(Into::into)` => `(match self.reader.read_const_bytes() { Ok(b) => Ok(i32_from_be(b)), Err(e) => Err(e.err_into()) })` rule=R19 unless `\.map_err\(`
+//@@ subst `self.reader.next().map_err(Into::into).and_then(|b| { b.map(|signed| signed as i8 as i32) .ok_or_else(|| Error::unexpected_eof("Expecting i32")) })` => `(match self.reader.next() { Ok(Some(signed)) => Ok(signed as i8 as i32), Ok(None) => Err(Error::unexpected_eof("Expecting i32")), Err(e) => Err(e.err_into()) })` rule=R19 unless `\.map_err\(`
 //@@ spec
     requires bounded(old(self).reader),
     ensures
@@ -1245,7 +1245,7 @@ impl<R: Read> Deserializer<R> {
 //@@ qmark
 //@@ blockarms
 //@@ subst `|| Error::unexpected_eof("parse_i16")` => `|| -> (o: Error) { Error::unexpected_eof("parse_i16") }` rule=R18
-//@@ subst `self .reader .read_const_bytes() .map(i16::from_be_bytes) .map_err(Into::into)` => `(match self.reader.read_const_bytes() { Ok(b) => Ok(i16_from_be(b)), Err(e) => Err(e.err_into()) })` rule=R19
+//@@ subst `self .reader .read_const_bytes() .map(i16::from_be_bytes) .map_err(Into::into)` => `(match self.reader.read_const_bytes() { Ok(b) => Ok(i16_from_be(b)), Err(e) => Err(e.err_into()) })` rule=R19 unless `\.map_err\(`
 //@@ spec
     requires bounded(old(self).reader),
     ensures
@@ -1259,7 +1259,7 @@ impl<R: Read> Deserializer<R> {
 //@@ qmark
 //@@ blockarms
 //@@ subst `|| Error::unexpected_eof("parse_u16")` => `|| -> (o: Error) { Error::unexpected_eof("parse_u16") }` rule=R18
-//@@ subst `self .reader .read_const_bytes() .map(u16::from_be_bytes) .map_err(Into::into)` => `(match self.reader.read_const_bytes() { Ok(b) => Ok(u16_from_be(b)), Err(e) => Err(e.err_into()) })` rule=R19
+//@@ subst `self .reader .read_const_bytes() .map(u16::from_be_bytes) .map_err(Into::into)` => `(match self.reader.read_const_bytes() { Ok(b) => Ok(u16_from_be(b)), Err(e) => Err(e.err_into()) })` rule=R19 unless `\.map_err\(`
 //@@ spec
     requires bounded(old(self).reader),
     ensures
@@ -1273,7 +1273,7 @@ impl<R: Read> Deserializer<R> {
 //@@ qmark
 //@@ blockarms
 //@@ subst `|| Error::unexpected_eof("parse_i8")` => `|| -> (o: Error) { Error::unexpected_eof("parse_i8") }` rule=R18
-//@@ subst `let byte = self .reader .next() .map_err(Into::into) .and_then(|b| b.ok_or_else(|| Error::unexpected_eof("Expecting i8")))?;` => `let byte = (match self.reader.next() { Ok(Some(b)) => b, Ok(None) => return Err(Error::unexpected_eof("Expecting i8")), Err(e) => return Err(e.err_into()) });` rule=R19
+//@@ subst `let byte = self .reader .next() .map_err(Into::into) .and_then(|b| b.ok_or_else(|| Error::unexpected_eof("Expecting i8")))?;` => `let byte = (match self.reader.next() { Ok(Some(b)) => b, Ok(None) => return Err(Error::unexpected_eof("Expecting i8")), Err(e) => return Err(e.err_into()) });` rule=R19 unless `\.map_err\(`
 //@@ spec
     requires bounded(old(self).reader),
     ensures
